@@ -114,7 +114,7 @@ def value_json(value, indent=None):
     else:
         result = _JSON_ENCODER_DEFAULT.encode(value)
     result = _R_VALUE_JSON_NUMBER_CLEANUP.sub(r'', result)
-    return _R_VALUE_JSON_NUMBER_CLEANUP2.sub(r'\1', result)
+    return _R_VALUE_JSON_NUMBER_CLEANUP2.sub(r'\1\2', result)
 
 
 class _JSONEncoder(json.JSONEncoder):
@@ -131,7 +131,7 @@ class _JSONEncoder(json.JSONEncoder):
 _JSON_ENCODER_DEFAULT = _JSONEncoder(allow_nan=False, separators=(',', ':'), sort_keys=True)
 
 _R_VALUE_JSON_NUMBER_CLEANUP = re.compile(r'\.0*$', re.MULTILINE)
-_R_VALUE_JSON_NUMBER_CLEANUP2 = re.compile(r'\.0*([,}\]])')
+_R_VALUE_JSON_NUMBER_CLEANUP2 = re.compile(r'("(?:[^"\\]|\\.)*")|\.0*([,}\]])')
 
 
 def value_boolean(value):
